@@ -20,10 +20,19 @@ CHECKS = {
              "(C15_overlap_spec), and the flagged entries are permutation-invariant (C15_perm). The model "
              "is tied to paths.FindConflicts by differential correspondence on seeded route lists "
              "(multiset of (A, B, reason text)); the property oracle prop_C15 (proved equivalent to the "
-             "statement, C15_oracle_spec) is also evaluated on the implementation's own output.",
+             "statement, C15_oracle_spec) is also evaluated on the implementation's own output. "
+             "Pipeline level (api.validator.go): warning both ends of every conflict warns exactly the "
+             "offending entries (C15_warned_exact, oracle C15_warned_oracle_spec); for every project the "
+             "warned methods are exactly those whose mounted route (controller route + method route) "
+             "overlaps another same-verb mounted route (C15_pipeline). Rendered projects (controllers "
+             "written from one skeleton one per file, same-file controls, several files / packages, "
+             "star-shaped route sets, controllers under different prefixes) go through the real "
+             "pipeline.Validate(); the methods carrying a route-conflict warning are compared with the "
+             "model and with the mounted-route oracle.",
         design_ref="DESIGN.md section 8 C15, appendix A.1",
         note=NOTE_COMMON + "Modelled not verified: fmt %q for strings with quote/backslash/non-printables; "
-             "Go map iteration order (conflicts compared as multisets).",
+             "Go map iteration order (conflicts compared as multisets). Pipeline leg: controller names are "
+             "distinct across packages (F13).",
         technique="Rocq proof (loop invariant, induction over the route list) + differential correspondence via vm_compute",
     ),
 }
